@@ -262,7 +262,7 @@ impl Property for C10Prop {
         vec!["cancellation points are store-call boundaries and the park inside begin(); dropping a writer while a pool-level command is in flight (sqlx discards the connection) is not part of this check", "a writer cancelled before calling commit() counts as aborted"]
     }
     fn expected_probes(&self) -> Vec<&'static str> {
-        vec!["writer_parked_in_begin", "permit_dropped_with_open_tx", "cancel_while_parked_in_begin", "begin_after_abort_completed", "commit_left_in_flight"]
+        vec!["writer_parked_in_begin", "permit_dropped_with_open_tx", "cancel_while_parked_in_begin", "begin_after_abort_completed", "commit_left_in_flight", "begin_failed_pool_exhausted"]
     }
     fn run(&self) {
         let mode = ctx::mode();
@@ -310,7 +310,28 @@ impl Property for C10Prop {
         let _cleanup = Cleanup(if file_db { Some(path.clone()) } else { None });
 
         stepexec::block_on(async move {
-            let sqlite = if file_db {
+            // A `begin()` that fails (every pool connection is checked out, the pool gives up after
+            // 200 ms) before the writers start: it must leave the permit machinery as it found it.
+            let begin_failure = file_db && faults && ctx::chance("begin.fails", 1, 4);
+            let sqlite = if begin_failure {
+                let _ = std::fs::remove_file(&path);
+                let s = simworld::populate::sqlite_file_with_acquire_timeout(&path, 4, std::time::Duration::from_millis(200)).await;
+                simworld::populate::install_commit_hold(&s, 4).await;
+                let hog = simworld::populate::hog_connections(&s, 4).await;
+                match <SqliteStore as Transaction>::begin(&s).await {
+                    Err(e) => {
+                        ctx::fault("begin_fails(pool_exhausted)");
+                        ctx::probe("begin_failed_pool_exhausted");
+                        ev!("a begin() with every pool connection checked out failed: {e}");
+                    }
+                    Ok(p) => {
+                        ev!("begin() unexpectedly succeeded with every pool connection checked out");
+                        let _ = <SqliteStore as Transaction>::rollback(&s, p).await;
+                    }
+                }
+                drop(hog);
+                s
+            } else if file_db {
                 let _ = std::fs::remove_file(&path);
                 let s = sqlite_file(&path, 4).await;
                 simworld::populate::install_commit_hold(&s, 4).await;
